@@ -8,6 +8,7 @@ import logging
 from typing import Any
 
 import aiofiles
+from marshmallow import ValidationError
 
 from .exceptions import PersistenceReadError, PersistenceWriteError
 from .model.node import Node, NodeSchema
@@ -35,16 +36,21 @@ class Persistence:
             async with aiofiles.open(path) as fil:
                 read = await fil.read()
             data: dict = json.loads(read or "{}")
+            if not isinstance(data, dict):
+                raise TypeError("Persistence data is not a JSON object.")  # noqa: TRY301
         except FileNotFoundError:
             LOGGER.debug("Persistence file missing, creating file: %s", path)
             await self.save()
             return
-        except (OSError, ValueError) as err:
+        except (OSError, ValueError, TypeError, RecursionError) as err:
             raise PersistenceReadError(err) from err
 
         node_schema = NodeSchema()
         for node_data in data.values():
-            node: Node = node_schema.load(node_data)
+            try:
+                node: Node = node_schema.load(node_data)
+            except ValidationError as err:
+                raise PersistenceReadError(err) from err
             self.nodes[node.node_id] = node
 
     async def save(self) -> None:
